@@ -65,6 +65,17 @@ pub fn cases(thorough: bool) -> Vec<Case> {
             i += 1;
         }
     }
+    // stream slots are scarce and one stream is abandoned: whatever the endpoint recycles for the
+    // streams that follow must start clean
+    for (c, win) in [("streams1", (8u64, 30u64)), ("default", (8, 30))] {
+        let mut cfg = cfg_by_name(c);
+        if c == "default" {
+            cfg.server.max_uni = Some(2);
+            cfg.server.max_bidi = Some(1);
+            cfg.client.name = "streams2".into();
+        }
+        v.push(Case { cfg, wl: Wl::W12, read: ReadMode::default(), script: vec![], window: win, name: format!("{}/W12/ordered/abandoned-stream", if c == "default" { "streams2" } else { c }) });
+    }
     // auxiliary operations as part of the scenario: key updates, link MTU changes, window changes
     let aux: Vec<(&str, Vec<(u64, Op)>)> = vec![
         ("keyupd-c@20", vec![(20, Op::KeyUpdate(CLIENT))]),
